@@ -113,7 +113,7 @@ func corrC17(outDir string, seed uint64, tier string, replay string) *report {
 	imports := []string{"GC.B64.B64Model", "GC.B64.B64Cases", "GC.B64.StreamModel", "GC.B64.StreamCases"}
 	csE := newCaseSet(outDir, "C17_enc", imports, "(nat * option Z * bool) * list wresp * list bytes * (bytes * list (option ioerr))", "ok_stream_enc "+alphasCoq, 1500)
 	csD := newCaseSet(outDir, "C17_dec", imports, "(nat * option Z * bool) * list revent * list Z * (bytes * option ioerr)", "ok_stream_dec "+alphasCoq, 1200)
-	cfgs := []b64cfg{{0, -1, false}, {0, '=', false}, {1, -1, true}, {2, '=', true}}
+	cfgs := []b64cfg{{0, -1, false, 0}, {0, '=', false, 0}, {1, -1, true, 1}, {2, '=', true, 0}}
 
 	runEnc := func(c b64cfg, script []wresp, chunks [][]byte, toCoq bool, kind string) {
 		w := &scriptWriter{script: append([]wresp(nil), script...)}
